@@ -33,6 +33,58 @@ CHECKS = {
          "Exploration: k in 1..6 zero words before the spelling of n (compositional sampler within [1,10^9) plus random n) in six contexts must validate and rewrite to '0'^k ++ decimal(n) as one numeral; 'n zero' must give 'n 0' and fail validation; the lone zero word gives 0.",
          "Trusted: C01 speller; numbers that fail the C01 round-trip are skipped and counted (C01 owns them).",
          "5 C16"),
+ "C02": (True, "differential runtime monitor: real rewrite vs harness-side splice of the reported occurrences on the crate's own tokens; token-identity conservation on streams",
+         "Exploration: hostile texts (multi-byte salt, mutated vocabulary, punctuation/hyphen/apostrophe clusters, several numbers per text, some 60+ words) at thresholds 0,3,10,inf,NaN: tokenizer lossless, rewrite == splice(find_numbers on the same annotated tokens); number-free scripts returned identical; on hinted IdTok streams every input id is kept or handed exactly once, in order, to Replace::replace of the single covering occurrence.",
+         "Trusted: hook H1 exports the crate's real tokenizer; the splice is 15 lines in the harness.",
+         "5 C02"),
+ "C03": (True, "crash/panic/hang observation of worker processes: catch_unwind + exit-status/signal + watchdog; debug-profile, AddressSanitizer and Miri legs",
+         "Exploration: 0.9M (quick) / >10M (thorough) hostile, degenerate and large inputs x 8 thresholds (incl. NaN, +-inf) through all six entry points in child processes; panics are caught in the worker, aborts/signals/sanitizer reports are seen by the parent and triaged to a single-case witness, a call that does not return within 150 s is a violation of the restated bounded-progress property; thorough adds an ASan build and 16 Miri processes.",
+         "Trusted: nightly sanitizer/Miri toolchains present in the image; a leg that cannot be built or is killed by the watchdog/OOM killer is inconclusive, never a violation. Unbounded termination is not decidable by observation: restated as bounded progress.",
+         "5 C03"),
+ "C06": (True, "invariant runtime monitor on every occurrence reported for grammar-noise token streams",
+         "Exploration: hinted / mixed-case / whitespace-interleaved grammar-noise streams (mostly invalid number phrases) scanned at 9 thresholds; every reported occurrence is checked for span bounds and order, word-token boundaries, numeral grammar (digits, optional mark+digits, optional marker, es 1/n), value == reading of the text, ordinal flag <=> marker, no marker on decimals.",
+         "Trusted: per-language marker alphabets taken from the property statement and library documentation.",
+         "5 C06"),
+ "C07": (True, "differential runtime monitor: scanner vs validator on the same words, both directions",
+         "Exploration: (a) every non-decimal occurrence on grammar-noise streams is re-validated on exactly its own words; (b) every phrase the validator accepts (speller output, one-word mutations, random vocabulary sequences) must be scanned as exactly one occurrence with the same digits; (c) every uncovered unflagged word at threshold 0 must fail validation.",
+         "Trusted: nothing beyond the public API; tokens flagged by hints count as set aside.",
+         "5 C07"),
+ "C09": (True, "trace-law monitor (subset/monotonicity laws over thresholds) + 15-line three-valued policy model",
+         "Exploration: each grammar-noise stream is scanned at 9 base thresholds plus value and value+-0.5 of its numbers; universal laws (F(t) subset F(0) as exact tuples, monotone in t, t<=0/NaN rewrites everything, non-small numbers always reported) on all streams; on lower-case hint-free streams a policy model decides membership of each small number from the soft/hard/ambiguous class of the gaps to its neighbours; ambiguous gaps (separator word, ellipsis, digit tokens) are not judged and counted.",
+         "Trusted: 'linking word' / 'separator word' are asked of the running library; the three-valued gap model of DESIGN.md C09.",
+         "5 C09"),
+ "C10": (True, "metamorphic runtime monitor: rewrite(A S B) vs rewrite(A) S rewrite(B); punctuation sweep",
+         "Exploration: A, B from hostile text and annotator-state templates (French determiner..neuf, English o), S = 3..5 self-checked fillers ending a sentence, thresholds 0,5,10; plus spelled a, punctuation p (16 kinds), spelled b -> 'a p b'.",
+         "Trusted: filler self-check; clause 2 conditioned on both numbers passing C01.",
+         "5 C10"),
+ "C11": (True, "metamorphic runtime monitor: two executions under a reversible recasing",
+         "Exploration: texts rich in linking words between small numbers, hostile and annotator-state texts; all-upper / capitalised / per-character random recasing restricted to characters whose case mapping round-trips; validation result, token count, occurrences tuple-for-tuple at thresholds 0,3,10,inf and the rewrite of the recased text vs the splice of its own tokens.",
+         "Trusted: texts whose whole-string lowercase changes under recasing are outside the quantifier and skipped (counted).",
+         "5 C11"),
+ "C12": (True, "history + executable positional model of the digit builder; release and debug-profile legs; invariants at the apply() boundary",
+         "Exploration: 1.5M (quick) / 60M (thorough) random operation histories over put/put_digit_at/shift/fput/push/freeze/reset with interpreter-like arguments; after each step rendering validity, len agreement, failure atomicity over all queries, frozen guard, digit conservation and equality with the model wherever documented; repeated in a debug-profile child (overflow checks, debug_assert); state invariants also checked on every builder state crossing LangInterpreter::apply in text workloads.",
+         "Trusted: the 120-line model in harness/src/monitors/c12.rs; undocumented argument/state combinations end a history instead of being judged.",
+         "5 C12"),
+ "C13": (True, "differential runtime monitor: concrete interpreter type vs Language facade vs get_interpreter_for value",
+         "Exploration: texts (validate, rewrite and find at 5 thresholds, annotation flags), hinted token streams (batch, lazy iterator with pull counts, stream rewrite, basic_annotate) and the eight trait methods on twin builders, for all 7 languages; the 7 ISO codes behave as their language on a corpus that separates all 7; obvious non-codes resolve to None.",
+         "Trusted: tag-like strings such as EN / en-US / eng are not judged.",
+         "5 C13"),
+ "C14": (True, "history-independence and thread-sharing differential monitors; ThreadSanitizer, AddressSanitizer and Miri legs; Send+Sync build probe; fd-level silence observation",
+         "Exploration: one long-lived interpreter set vs a second one (every call) and vs freshly built ones (sampled) over scripts aimed at carried state; 16 threads replay pre-computed scripts on shared facade and concrete values with overlap measured; thorough repeats the thread workload under TSan (-Zbuild-std), ASan and Miri seeded schedules; a build probe decides Send + Sync; a worker process with piped stdout/stderr applies every lexicon word in 7 digit states and converts the corpora: zero bytes expected.",
+         "Trusted: harness-local force-Sync wrapper (so the experiment still builds if an interpreter gains interior mutability); sanitizer toolchains; a leg that cannot be built is inconclusive.",
+         "5 C14"),
+ "C15": (True, "trace monitor on the lazy iterator (wrapping counting iterator) + metamorphic hint/comma equivalence",
+         "Exploration: hinted streams up to 40 words at thresholds 0,3,10,inf: iterator output == batch output then None repeatedly; 0 tokens pulled before the first request and never beyond the end of the second number after the returned one; no occurrence spans a separation-hinted token and its predecessor; hinted stream == same stream with a spoken comma inserted; no occurrence contains a not-a-number token.",
+         "Trusted: hints are only placed on tokens the scanner does not skip.",
+         "5 C15"),
+ "C17": (True, "metamorphic runtime monitor: whitespace-run substitution",
+         "Exploration: every maximal whitespace run replaced by a random run over 10 whitespace kinds (ASCII and Unicode), runs added at both ends; validation result, occurrences tuple-for-tuple with shifted spans at thresholds 0,3,10, rewrite vs splice of own tokens, rewrites equal modulo whitespace; English (own whitespace-sensitive pass) double share.",
+         "Trusted: only char::is_whitespace characters are substituted.",
+         "5 C17"),
+ "C18": (True, "neighbour-rule differential monitor on the English annotator (o -> zero / filler substitution)",
+         "Exploration: English texts over {o, O, number words, fillers, linking words, punctuation} with ASCII/Unicode whitespace; each o is classified by asking the running library whether its nearest non-whitespace neighbours are number words; the substituted text must give identical occurrences at thresholds 0,5,10; circular o-next-to-o cases skipped and counted.",
+         "Trusted: 'number word' = accepted by LangInterpreter::apply on a fresh builder.",
+         "5 C18"),
 }
 NOT_BUILT_REASON = "monitor designed in DESIGN.md section 5 but not built yet in this session; it will be claimed once its check exists"
 
